@@ -18,7 +18,7 @@ APIS = ["locally_normalize(cfg) rule weights per head", "locally_normalize(cfg)(
 
 
 def plan(tier, seed):
-    return common.plan_shards(tier, seed, n_quick=120, n_thorough=1000, budget_quick=35, budget_thorough=400, pops=True)
+    return common.plan_shards(tier, seed, n_quick=200, n_thorough=1000, budget_quick=35, budget_thorough=400, pops=True)
 
 
 def gates(tier):
